@@ -306,7 +306,7 @@ def check(rep, tier, seed):
         rep.add_tlc(r, "VectorHeap design properties")
         tlc.expect_clean(r, "VectorMC")
         for neg, prop in (("meta", "InvNoSharing"), ("slice2d", "SliceAddresses"), ("addshare", "InvCells")):
-            rn = tlc.run_tlc("VectorMC", f"VectorNEG_{neg}.cfg", spec_dir=SPEC, workers=16, timeout=900)
+            rn = tlc.run_tlc("VectorMC", f"VectorNEG_{neg}.cfg", spec_dir=SPEC, workers=1, timeout=900)
             tlc.expect_violation(rn, f"VectorNEG_{neg}", prop)
         rep.note("negative_controls", ["VectorNEG_meta", "VectorNEG_slice2d", "VectorNEG_addshare"])
         g = tlc.cfg_variant(os.path.join(SPEC, "VectorGEN.cfg"), tmp, "gen.cfg", {"MaxLen": 3})
